@@ -230,6 +230,9 @@ func isLocalAnyDepth(u *core.Unit, e ast.Expr, name string) bool {
 	if !ok {
 		return false
 	}
+	if f, isF := core.ObjOf(u.Info(), id).(*types.Func); isF && f.Name() == name && closureTurnedFunc(u, f) {
+		return true // the closure that was bound to this local is a named function now (closure → function, same name)
+	}
 	v, ok := core.ObjOf(u.Info(), id).(*types.Var)
 	return ok && !v.IsField() && (core.CanonName(v) == name || id.Name == name)
 }
@@ -690,6 +693,14 @@ func localAnchors(c *core.Ctx, R string, u *core.Unit, names ...string) bool {
 			}
 		}
 	}
+	// a local closure that became a novel package-level function of the same name still anchors the table
+	if pk := u.Pkg; pk != nil && pk.Types != nil {
+		for _, n := range names {
+			if f, isF := pk.Types.Scope().Lookup(n).(*types.Func); isF && closureTurnedFunc(u, f) {
+				have[n] = true
+			}
+		}
+	}
 	ok := true
 	for _, n := range names {
 		if !have[n] {
@@ -698,4 +709,17 @@ func localAnchors(c *core.Ctx, R string, u *core.Unit, names ...string) bool {
 		}
 	}
 	return ok
+}
+
+// closureTurnedFunc: f is a function that is not in the baseline as a function —
+// novel, or recovered under the key of a closure of u's root (closure → named
+// function conversion).
+func closureTurnedFunc(u *core.Unit, f *types.Func) bool {
+	if core.IsNovel(f) {
+		return true
+	}
+	if h := u.Prog.UnitOf(f); h != nil {
+		return strings.HasPrefix(h.Key, u.Root().Key+"$")
+	}
+	return false
 }
